@@ -1,6 +1,8 @@
 package main
 
 import (
+	"go/constant"
+	"go/token"
 	"go/types"
 	"strings"
 
@@ -90,29 +92,44 @@ func resolveEntries(p *Prog) {
 			}
 		}
 	}
-	// sync handler: callee of WorkerLoop.Run taking a *syncMsgType
+	// sync handler: the function WorkerLoop.Run calls (directly or through a step method of the loop) with a *syncMsgType
 	if run := p.FuncByID["(*leanhelix.WorkerLoop).Run"]; run != nil {
-		var hs []string
-		for _, b := range run.Blocks {
-			for _, in := range b.Instrs {
-				ci, ok := in.(ssa.CallInstruction)
-				if !ok {
-					continue
-				}
-				sc := ci.Common().StaticCallee()
-				if sc == nil || p.FuncByID[funcID(sc)] != sc {
-					continue
-				}
-				for _, prm := range sc.Params {
-					if typeShort(prm.Type()) == syncMsgType {
-						hs = append(hs, funcID(sc))
+		level := []*ssa.Function{run}
+		seenF := map[*ssa.Function]bool{run: true}
+		for depth := 0; depth < 2 && len(level) > 0; depth++ {
+			var hs []string
+			var next []*ssa.Function
+			for _, f := range level {
+				for _, b := range f.Blocks {
+					for _, in := range b.Instrs {
+						ci, ok := in.(ssa.CallInstruction)
+						if !ok {
+							continue
+						}
+						sc := ci.Common().StaticCallee()
+						if sc == nil || p.FuncByID[funcID(sc)] != sc {
+							continue
+						}
+						for _, prm := range sc.Params {
+							if typeShort(prm.Type()) == syncMsgType {
+								hs = append(hs, funcID(sc))
+							}
+						}
+						if !seenF[sc] && recvShort(sc) == "leanhelix.WorkerLoop" {
+							seenF[sc] = true
+							next = append(next, sc)
+						}
 					}
 				}
 			}
-		}
-		hs = dedupSorted(hs)
-		if len(hs) == 1 {
-			idE4 = hs[0]
+			hs = dedupSorted(hs)
+			if len(hs) == 1 {
+				idE4 = hs[0]
+			}
+			if len(hs) > 0 {
+				break
+			}
+			level = next
 		}
 	}
 	// election callback: the bound method given to RegisterOnElection inside the term package
@@ -154,4 +171,105 @@ func resolveEntries(p *Prog) {
 	if len(cbs) == 1 {
 		idE3 = cbs[0]
 	}
+}
+
+// loopBody: where an event loop's top-level select lives. Usually in the loop function itself; a loop written as
+// `for x.step(ctx) { }` keeps it in the step method, whose boolean result decides whether the loop goes on.
+type loopBody struct {
+	entry, body *ssa.Function
+	call        ssa.Instruction // the call of the step method in the entry's loop (nil when body == entry)
+	exitVal     bool            // the result of the step method that makes the entry leave its loop
+}
+
+func topSelects(f *ssa.Function) []*ssa.Select {
+	var out []*ssa.Select
+	for _, b := range f.Blocks {
+		for _, in := range b.Instrs {
+			if sel, ok := in.(*ssa.Select); ok && len(sel.States) >= 3 {
+				out = append(out, sel)
+			}
+		}
+	}
+	return out
+}
+
+func (a *Analyzer) loopBodyOf(id string) loopBody {
+	fn := a.P.Func(id)
+	lb := loopBody{entry: fn, body: fn}
+	if fn == nil || len(topSelects(fn)) > 0 {
+		return lb
+	}
+	li := a.Loops(fn)
+	for _, b := range fn.Blocks {
+		l := li.Innermost(b)
+		if l == nil {
+			continue
+		}
+		for _, in := range b.Instrs {
+			call, ok := in.(*ssa.Call)
+			if !ok {
+				continue
+			}
+			g := call.Call.StaticCallee()
+			if g == nil || len(g.Blocks) == 0 || len(topSelects(g)) != 1 {
+				continue
+			}
+			if bt, isB := call.Type().Underlying().(*types.Basic); !isB || bt.Kind() != types.Bool {
+				continue
+			}
+			// the result decides whether the loop goes on
+			for _, ref := range *call.Referrers() {
+				cond, neg := ssa.Value(call), false
+				if u, isU := ref.(*ssa.UnOp); isU && u.Op == token.NOT {
+					cond, neg = u, true
+					for _, r2 := range *u.Referrers() {
+						ref = r2
+					}
+				}
+				ifi, isIf := ref.(*ssa.If)
+				if !isIf || ifi.Cond != cond {
+					continue
+				}
+				ib := ifi.Block()
+				out0, out1 := leavesLoop(ib.Succs[0], l, false), leavesLoop(ib.Succs[1], l, false)
+				if out0 == out1 {
+					continue
+				}
+				lb.body, lb.call = g, call
+				lb.exitVal = out0 != neg // succ[0] is taken when cond is true
+				return lb
+			}
+		}
+	}
+	return lb
+}
+
+// returnsOnly: every function exit reachable from blk returns the boolean constant v.
+func returnsOnly(blk *ssa.BasicBlock, v bool) bool {
+	for b := range reachableFrom(blk) {
+		if len(b.Instrs) == 0 {
+			continue
+		}
+		ret, ok := b.Instrs[len(b.Instrs)-1].(*ssa.Return)
+		if !ok {
+			continue
+		}
+		if len(ret.Results) != 1 {
+			return false
+		}
+		k, isK := ret.Results[0].(*ssa.Const)
+		if !isK || k.Value == nil || k.Value.Kind() != constant.Bool || constant.BoolVal(k.Value) != v {
+			return false
+		}
+	}
+	return true
+}
+
+// stepContinues: the return instruction of a step method hands back the "go on" value.
+func (lb loopBody) stepContinues(ret *ssa.Return) bool {
+	if lb.call == nil || ret.Parent() != lb.body || len(ret.Results) != 1 {
+		return false
+	}
+	k, isK := ret.Results[0].(*ssa.Const)
+	return isK && k.Value != nil && k.Value.Kind() == constant.Bool && constant.BoolVal(k.Value) != lb.exitVal
 }
